@@ -229,8 +229,11 @@ def worker_main(args: dict) -> int:
         }
         run_index = args.get("first_run", 0) + w
         last = args.get("max_runs")
+        stop_flag = os.path.join(os.path.dirname(base), "STOP")
         while time.monotonic() < deadline:
             if last is not None and run_index >= args.get("first_run", 0) + last:
+                break
+            if os.path.exists(stop_flag):
                 break
             cfg, ops, seed_tag = generate(prop, seed, run_index, tier)
             run_dir = os.path.join(base, f"r{run_index}")
@@ -265,6 +268,9 @@ def worker_main(args: dict) -> int:
                     seed_tag, violation, args,
                 )
                 out["violations"].append(record)
+                if args.get("stop_on_first", True):
+                    with open(stop_flag, "w") as fp:
+                        fp.write(str(run_index))
                 if len(out["violations"]) >= 2:
                     break
             run_index += n_workers
